@@ -29,9 +29,6 @@ variable {K : Type} [Num K]
 `1 / d < 0` reads the sign bit of a zero at `Float` (`1 / -0.0 = -∞`) and is `d < 0` in an ordered field. -/
 @[inline] def copySign (d to : K) : K := if 1 / d < 0 then -(nabs to) else nabs to
 
-/-- `Unit::new_normalize(v)` / `v.normalize()`: `v.unscale(v.norm())`. -/
-@[inline] def V3.normalize (v : V3 K) : V3 K := v.sdiv v.norm
-@[inline] def V2.normalize (v : V2 K) : V2 K := v.sdiv v.norm
 
 /-- `Vector::x_axis()` -/
 @[inline] def V3.xAxis : V3 K := ⟨1, 0, 0⟩
